@@ -38,3 +38,53 @@ Theorem av1_resync : forall h p f st0, starts_fresh p ->
 Proof.
   intros h p f st0 Hp. cbn [av1_run]. rewrite (av1d_z0_independent (av1_after st0 h) st0 p Hp). reflexivity.
 Qed.
+
+(* a packet of at least two bytes whose N bit is set (first packet of a coded video sequence) *)
+Definition starts_sequence (p : list Z) : Prop :=
+  match p with b0 :: _ :: _ => Z.land 8 b0 <> 0 | _ => False end.
+
+Lemma av1d_n1_independent st1 st2 p : starts_sequence p ->
+  av1d_unmarshal st1 (Some p) = av1d_unmarshal st2 (Some p).
+Proof.
+  intros Hn. unfold av1d_unmarshal. destruct p as [|b0 [|b1 l1]]; try contradiction.
+  cbn [starts_sequence] in Hn. apply Z.eqb_neq in Hn. rewrite Hn. cbn [negb]. reflexivity.
+Qed.
+
+(* N = 1 drops the carried fragment whatever Z says: a frame that opens a new coded video sequence is
+   decoded as by a fresh receiver after any history, even when its first packet claims (Z = 1) to
+   continue a fragment - the orphan continuation is skipped on both sides alike *)
+Theorem av1_resync_sequence : forall h p f st0, starts_sequence p ->
+  av1_run (av1_after st0 h) (p :: f) = av1_run st0 (p :: f).
+Proof.
+  intros h p f st0 Hp. cbn [av1_run]. rewrite (av1d_n1_independent (av1_after st0 h) st0 p Hp). reflexivity.
+Qed.
+
+(* an orphan continuation: Z = 1 reaching a receiver that holds no fragment (fresh, or after a packet
+   with Y = 0, or after the fragment was dropped).  With W = 1 the packet carries the lost unit's
+   tail only and yields no bytes; nothing of it reaches the next packet *)
+Example orphan_continuation_skipped :
+  av1d_unmarshal (mkAv1Dep [] false false false) (Some [144; 170; 187])
+  = (mkAv1Dep [] true false false, Ok []).
+Proof. vm_compute. reflexivity. Qed.
+
+(* the flags Z, Y, N a receiver shows are outputs only: what a packet decodes to, and the fragment
+   carried on, depend on the receiver through the carried fragment alone *)
+Lemma av1d_state_is_buffer st1 st2 p : ad_buffer st1 = ad_buffer st2 ->
+  snd (av1d_unmarshal st1 p) = snd (av1d_unmarshal st2 p) /\
+  ad_buffer (fst (av1d_unmarshal st1 p)) = ad_buffer (fst (av1d_unmarshal st2 p)).
+Proof.
+  intros H. unfold av1d_unmarshal. rewrite H.
+  destruct (match p with Some l => l | None => [] end) as [|b0 [|b1 l1]]; cbn [fst snd]; auto.
+Qed.
+
+Theorem av1_run_state_is_buffer : forall ps st1 st2, ad_buffer st1 = ad_buffer st2 ->
+  snd (av1_run st1 ps) = snd (av1_run st2 ps) /\
+  ad_buffer (fst (av1_run st1 ps)) = ad_buffer (fst (av1_run st2 ps)).
+Proof.
+  induction ps as [|p t IH]; intros st1 st2 H; cbn [av1_run]; [auto|].
+  destruct (av1d_state_is_buffer st1 st2 (Some p) H) as [Ho Hb].
+  destruct (av1d_unmarshal st1 (Some p)) as [s1 r1]. destruct (av1d_unmarshal st2 (Some p)) as [s2 r2].
+  cbn [fst snd] in Ho, Hb. specialize (IH s1 s2 Hb).
+  destruct (av1_run s1 t) as [s1' o1]. destruct (av1_run s2 t) as [s2' o2]. cbn [fst snd] in *.
+  destruct IH as [I1 I2]. split; [congruence|exact I2].
+Qed.
